@@ -12,10 +12,10 @@ const crashRule = "each run = a seeded workload (6-36 API calls: appends with ro
 
 func crashSpec(id string, extra string, probes []string) *PropSpec {
 	return &PropSpec{
-		ID:          id,
-		Rule:        crashRule + extra,
-		Components:  compA,
-		Assumptions: []string{"the simulated disk models exactly the durability contract of fs/ (file fsync makes that inode's data+length durable; directory entries become durable at the first Sync of a handle or at Delete) - shown by the C07 checks", "bbolt commits are atomic and durable on return (dependency, trusted); the metadata store survives every crash as committed", "torn writes are modelled at >= 8-byte granularity without garbling (README assumption)"},
+		ID:             id,
+		Rule:           crashRule + extra,
+		Components:     compA,
+		Assumptions:    []string{"the simulated disk models exactly the durability contract of fs/ (file fsync makes that inode's data+length durable; directory entries become durable at the first Sync of a handle or at Delete) - shown by the C07 checks", "bbolt commits are atomic and durable on return (dependency, trusted); the metadata store survives every crash as committed", "torn writes are modelled at >= 8-byte granularity without garbling (README assumption)"},
 		RequiredProbes: probes,
 		RequiredFired:  []string{"crash", "power", "torn_blocks_lost", "torn_blocks_kept", "dirops_lost"},
 		QuickS:         50, ThoroughS: 900,
@@ -29,6 +29,18 @@ func init() {
 	propSpecs["C03"] = crashSpec("C03", " C03 adds after every recovery a usability script (append at Last+1, a second append, stable set, head and tail DeleteRange, clean Close/Open, all compared with the model); refusal of a legal call, a deadlock or a step-budget overrun is a violation.", []string{"recoveries", "usability_scripts"})
 	propSpecs["C04"] = crashSpec("C04", " C04 emphasis: crashes targeted at the seam calls inside DeleteRange (ForceSeal write/sync, CommitState, Create, finalizer Delete) and in the appends that re-use truncated indexes.", []string{"recoveries", "truncations"})
 	propSpecs["C13"] = crashSpec("C13", " C13 oracles: after every returned DeleteRange, every Open and at quiescent points the sorted directory listing equals the file names of the segments in committed metadata; every Create succeeds without colliding; a segment ID is bound to one BaseIndex for the lifetime of the directory; committed NextSegmentID never decreases and exceeds every ID ever created.", []string{"recoveries", "truncations"})
+	propSpecs["C10"] = &PropSpec{
+		ID: "C10",
+		Rule: "each run = a seeded workload (8-40 API calls) with 1-3 injected I/O errors, each at the k-th seam call (optionally of a given kind: WriteAt, Sync, CommitState, Create, Delete, ListDir, OpenReader, OpenWriter, ReadAt, Load, SetStable, GetStable) inside one operation's window incl. the background rotation and Open; " +
+			"fail-before (no effect), fail-after (effect applied, caller told it failed: failed fsync whose data landed, ambiguous metadata commit) or partial (short write; file fsynced but directory fsync failed; unlinked but directory fsync failed); transient or persistent until lifted; pairs in consecutive ops. " +
+			"In-process after every call the WAL must show exactly the acknowledged appends (a failed append invisible; a failed truncation applied or not); after the final clean reopen every failed call is applied in full or not at all and no acknowledged entry is lost or altered. " +
+			"Non-trivial = at least one fault fired; distinct = distinct sets of (seam kind, before/after/mid, persistent, op kind in whose window).",
+		Components:     compA,
+		Assumptions:    []string{"error values are ordinary *os.PathError (EIO/ENOSPC)", "a call that returns an error without an injected fault in a process lifetime that already saw one is counted as refused, not as a violation (the property does not promise liveness after I/O errors)"},
+		RequiredProbes: []string{"clean_reopens"},
+		RequiredFired:  []string{"err", "err_before_Sync", "err_after_Sync", "err_after_CommitState", "err_before_CommitState", "err_before_WriteAt", "err_short_write", "err_before_Create", "err_before_Delete"},
+		QuickS:         50, ThoroughS: 900,
+	}
 	propSpecs["C05"] = &PropSpec{
 		ID: "C05",
 		Rule: "each run = a seeded program of 1-55 API calls (append incl. illegal batches, head/tail/all/middle/no-op DeleteRange, GetLog, stable ops, clean reopen, quiesce) over a swarm-drawn geometry " +
